@@ -244,6 +244,14 @@ func (r *pdRun) buildMsg(ci int, retransmit []byte) ([]byte, string) {
 	opts := []pkt.Opt6{pkt.O6(pkt.OptClientID6, r.duids[ci]), pkt.O6(pkt.OptElapsed, []byte{byte(r.rng.Intn(2)), byte(r.rng.Intn(200))})}
 	npd := []int{1, 1, 1, 1, 2, 2, 3, 0}[r.rng.Intn(8)]
 	var desc []string
+	if len(r.duids) > 1 && r.rng.Intn(12) == 0 {
+		// a second, different Client Identifier option behind the first (a singleton option repeated: the
+		// codec - and so the reply the server builds - goes by the first; so does everybody's book-keeping)
+		other := r.duids[(ci+1+r.rng.Intn(len(r.duids)-1))%len(r.duids)]
+		opts = append(opts, pkt.O6(pkt.OptClientID6, other))
+		desc = append(desc, "second-client-id")
+		r.ctx.Count("prefix.messages_with_a_second_client_identifier", 1)
+	}
 	for j := 0; j < npd; j++ {
 		iaid := uint32(j + 1)
 		if r.rng.Intn(8) == 0 {
